@@ -61,7 +61,7 @@ def gen_sequence(ctx, maxlen):
             sw = tuple(bool(b) for b in r.integers(0, 2, 3))
             ops.append(("step", sw, int(r.integers(3, 15)), float(10 ** r.uniform(-12, -1))))
         else:
-            ops.append(("clone", str(r.choice(["deepcopy", "pickle", "hdf5"]))))
+            ops.append(("clone", str(r.choice(["deepcopy", "pickle", "hdf5", "hdf5_load"]))))
     probes = r.normal(0, 4, (3, D)) * scale
     return dict(C=C, D=D, w0=w, ubm=(w, m, v) if is_map else None, ops=ops, probes=probes, scale=scale,
                 init_thr=gen.EPS, seed=int(r.integers(0, 2**31)))
@@ -148,7 +148,20 @@ def run_impl(seq):
                     if os.path.exists(tmp):
                         os.remove(tmp)
                     r = core.impl(lambda: g.save(tmp))
-                    if not isinstance(r, core.ImplError):
+                    if not isinstance(r, core.ImplError) and how == "hdf5_load":
+                        # in-place load into a machine that has other parameters and has been used (its caches are filled)
+                        other = copy.deepcopy(g)
+                        other.weights = np.asarray(other.weights)[::-1].copy()
+                        other.means = np.asarray(other.means) * 1.5 + 0.25
+                        other.variances = np.asarray(other.variances) * 2.0
+                        core.impl(lambda: other.log_likelihood(np.asarray(other.means)))
+                        r2 = core.impl(lambda: other.load(tmp))
+                        if isinstance(r2, core.ImplError):
+                            obs_list.append({"error": "load: " + repr(r2)})
+                            model_ops.append({"k": "clone"})
+                            continue
+                        g = other
+                    elif not isinstance(r, core.ImplError):
                         g2 = core.impl(lambda: GMMMachine.from_hdf5(tmp, ubm=ubm))
                         if isinstance(g2, core.ImplError):
                             obs_list.append({"error": "load: " + repr(g2)})
